@@ -770,6 +770,117 @@ fn value_types_part(res: &mut PartResult) {
     res.sample(json!({"span": "info_span!(\"v\", i = -5i64, imin = i64::MIN, u = 7u64, umax = u64::MAX)"}));
 }
 
+/// Span identity: every sequence of operations on a pool of up to 3 spans that all come from ONE callsite with different
+/// field values (what a loop creating a span per iteration gives): create (value 1 or 2, contextual parent = the span
+/// current at that moment), enter / exit (stack discipline, through an owned clone of the handle), record field b, drop
+/// the handle (which closes the span once it is not entered; a later create can then get the same span id back from the
+/// registry). After every step an emission must carry exactly the labels of the span current at that moment: its own
+/// fields, what it inherited when it was created, and its later records — never those of a sibling, of an earlier span
+/// with the same id, or of the callsite's previous use.
+fn identity_part(ctx: &Ctx, res: &mut PartResult, depth: usize) {
+    res.engine = "E3 bounded exhaustive create/enter/exit/record/drop sequences over spans of one callsite (incl. span id reuse)".into();
+    let mut states = vseq::States::new();
+    let dispatch = Dispatch::new(tracing_subscriber::registry().with(MetricsLayer::new()));
+    let dummy: Vec<Lvl> = vec![];
+    fn mk(v: u64) -> Span {
+        tracing::info_span!("iter", a = v, b = Empty)
+    }
+    const POOL: usize = 3;
+    // ops: 0,1 = create with a=1 / a=2; 2..5 enter(i); 5 exit; 6..9 record(i); 9..12 drop(i)
+    let n_ops = 12;
+    let mut total_checks = 0u64;
+    for filter in [Filter::All, Filter::Allow(vec!["a", "b"])] {
+        let log: Log = Default::default();
+        let rec = filter.build(log.clone());
+        let mut all_fails: Vec<(String, String, Vec<usize>)> = Vec::new();
+        let mut transitions = 0u64;
+        let mut run = |seq: &[usize]| -> Option<usize> {
+            let mut cut: Option<usize> = None;
+            tracing::dispatcher::with_default(&dispatch, || {
+                let mut pool: Vec<Option<(Span, BTreeMap<String, String>)>> = (0..POOL).map(|_| None).collect();
+                let mut stack: Vec<(usize, tracing::span::EnteredSpan)> = Vec::new();
+                let mut recs = 0u64;
+                for (step, op) in seq.iter().enumerate() {
+                    let op = *op;
+                    let applicable = match op {
+                        0 | 1 => pool.iter().any(|s| s.is_none()),
+                        2..=4 => pool[op - 2].is_some() && !stack.iter().any(|e| e.0 == op - 2),
+                        5 => !stack.is_empty(),
+                        6..=8 => pool[op - 6].is_some(),
+                        _ => pool[op - 9].is_some() && !stack.iter().any(|e| e.0 == op - 9),
+                    };
+                    if !applicable {
+                        cut = Some(step);
+                        break;
+                    }
+                    transitions += 1;
+                    match op {
+                        0 | 1 => {
+                            let v = op as u64 + 1;
+                            let free = pool.iter().position(|s| s.is_none()).unwrap();
+                            let mut labels: BTreeMap<String, String> = stack.last().map(|e| pool[e.0].as_ref().unwrap().1.clone()).unwrap_or_default();
+                            labels.insert("a".into(), v.to_string());
+                            pool[free] = Some((mk(v), labels));
+                        }
+                        2..=4 => {
+                            let i = op - 2;
+                            let g = pool[i].as_ref().unwrap().0.clone().entered();
+                            stack.push((i, g));
+                        }
+                        5 => {
+                            stack.pop();
+                        }
+                        6..=8 => {
+                            let i = op - 6;
+                            recs += 1;
+                            let val = format!("r{}", recs);
+                            let (sp, labels) = pool[i].as_mut().unwrap();
+                            sp.record("b", val.as_str());
+                            labels.insert("b".into(), val);
+                        }
+                        _ => {
+                            pool[op - 9] = None;
+                        }
+                    }
+                    let visible: Option<BTreeMap<String, String>> = stack.last().map(|e| pool[e.0].as_ref().unwrap().1.clone());
+                    let mut fails: Vec<(String, String)> = Vec::new();
+                    {
+                        let mut env = Env { rec: rec.as_ref(), log: &log, filter: &filter, fails: &mut fails, checks: &mut total_checks, states: &mut states, tree: &dummy };
+                        emit_and_check(&mut env, visible.as_ref(), &format!("after step {} of the one-callsite program {:?} (0,1 = create a=1/2 under the current span; 2-4 enter; 5 exit; 6-8 record b; 9-11 drop handle)", step, &seq[..=step]));
+                    }
+                    if let Some((sig, msg)) = fails.into_iter().next() {
+                        all_fails.push((sig, msg, seq[..=step].to_vec()));
+                        cut = Some(step);
+                        break;
+                    }
+                }
+                // leave every span before the handles go away
+                while stack.pop().is_some() {}
+            });
+            cut
+        };
+        if let Some(rp) = ctx.replay.as_ref().and_then(|r| r["seq"].as_array().map(|a| a.iter().map(|x| x.as_u64().unwrap() as usize).collect::<Vec<usize>>())) {
+            run(&rp);
+            res.executions += 1;
+        } else {
+            let (n, complete) = vseq::for_each_seq(n_ops, depth, &mut run, &|| ctx.over_budget());
+            res.executions += n;
+            if !complete {
+                res.exhaustive = false;
+                res.cap_hit = Some("budget (cpu time of the part)".into());
+            }
+        }
+        res.transitions += transitions;
+        for (sig, msg, seq) in all_fails.into_iter().take(20) {
+            res.violation(&sig, msg, json!({"seq": seq}));
+        }
+    }
+    res.states = states.len();
+    res.distinct_outcomes = states.len();
+    res.bound = json!({"depth": depth, "alphabet": n_ops, "pool": POOL, "filters": 2});
+    res.sample(json!({"program": "create a=1; enter it; create a=2 (child); exit; drop the first; create a=1 again (id reuse); enter; emit", "expected": "labels of exactly the span current at each emission"}));
+}
+
 fn filters(all: bool) -> Vec<Filter> {
     let mut v = vec![Filter::All, Filter::Custom];
     let names = ["a", "b", "c"];
@@ -784,7 +895,7 @@ fn filters(all: bool) -> Vec<Filter> {
 
 fn parts(ctx: &Ctx) -> Vec<PartSpec> {
     let b = if ctx.quick() { 150.0 } else { 2400.0 };
-    let mut v = vec![PartSpec::new("value-types", json!({"p": "values"})), PartSpec::new("explicit-parents", json!({"p": "explicit"})), PartSpec::new("record-window", json!({"p": "window"}))];
+    let mut v = vec![PartSpec::new("value-types", json!({"p": "values"})), PartSpec::new("explicit-parents", json!({"p": "explicit"})), PartSpec::new("record-window", json!({"p": "window"})), PartSpec::new(&format!("one-callsite-identity-d{}", if ctx.quick() { 7 } else { 9 }), json!({"p": "identity", "depth": if ctx.quick() { 7 } else { 9 }})).budget(b)];
     let fl = filters(true);
     let depth = if ctx.quick() { 3 } else { 5 };
     for fi in 0..fl.len() {
@@ -800,6 +911,8 @@ fn run(ctx: &Ctx, spec: &PartSpec) -> PartResult {
         value_types_part(&mut res);
     } else if spec.arg["p"].as_str() == Some("explicit") {
         explicit_parent_part(&mut res);
+    } else if spec.arg["p"].as_str() == Some("identity") {
+        identity_part(ctx, &mut res, spec.arg["depth"].as_u64().unwrap_or(5) as usize);
     } else if spec.arg["p"].as_str() == Some("window") {
         record_window_part(&mut res);
     } else {
@@ -814,7 +927,7 @@ fn main() {
     driver::main(CheckDef {
         prop: "C17",
         level: "model_checking",
-        rule: "all span trees (chains of nested spans) up to the stated depth where every level independently takes one of 20 variants (fields a,b given at creation or left Empty; a later record() of a or b, either right after creation or after the child span was created), x filters {IncludeAll, custom per-metric closure, Allowlists over {a,b,c}} x metric own-label sets ⊆ {a,c} x 2 metric names x 3 kinds, emitted inside every level, after every subtree, after leaving every level and outside any span, on the real MetricsLayer + TracingContextLayer over a real tracing-subscriber registry, optionally with a second thread holding a conflicting span on the same subscriber; the key reaching the inner recorder is compared with a reference precedence map (metric > inner span > outer span-at-child-creation, record() replaces); plus, at the value-formatting callback inside Span::record (the one point where other code can run during a record), every action of {emit in the span, create a child and emit in it} x {same thread, another thread} and a concurrent record of the other field: the emission sees the labels from before or after the record, never a torn set; plus field value types (str, bool, i64/u64 extremes, Debug, Display, f64, u128, Empty); distinct = distinct resulting label sets",
+        rule: "all span trees (chains of nested spans) up to the stated depth where every level independently takes one of 20 variants (fields a,b given at creation or left Empty; a later record() of a or b, either right after creation or after the child span was created), x filters {IncludeAll, custom per-metric closure, Allowlists over {a,b,c}} x metric own-label sets ⊆ {a,c} x 2 metric names x 3 kinds, emitted inside every level, after every subtree, after leaving every level and outside any span, on the real MetricsLayer + TracingContextLayer over a real tracing-subscriber registry, optionally with a second thread holding a conflicting span on the same subscriber; the key reaching the inner recorder is compared with a reference precedence map (metric > inner span > outer span-at-child-creation, record() replaces); plus, at the value-formatting callback inside Span::record (the one point where other code can run during a record), every action of {emit in the span, create a child and emit in it} x {same thread, another thread} and a concurrent record of the other field: the emission sees the labels from before or after the record, never a torn set; plus field value types (str, bool, i64/u64 extremes, Debug, Display, f64, u128, Empty); distinct = distinct resulting label sets; span identity: every sequence of 7 (thorough 9) operations over a pool of 3 spans from ONE callsite with different field values (create under the current span, enter/exit, record, drop the handle — so that the registry hands span ids out again), an emission after every step",
         assumptions: &["span trees are chains (each span has at most one child): sibling spans are independent by construction of the per-span label map"],
         parts,
         run,
